@@ -48,7 +48,7 @@ def extra(chk, thorough):
         try:
             r.step(("issue", 1, bk))
             for _ in range(A.KINDS[bk][2]):
-                r.step(("ack", r.proto._pack_seq))
+                r.step(("ack", r.cur_seq()))
             # blocking request now waits for its response; the link is free
             o = r.step(("issue", 2, "nb1"))
             o2 = r.step(("issue", 3, "b1b"))
@@ -75,13 +75,13 @@ def extra(chk, thorough):
             real = []
             for e in evs:
                 if e == ("ack", -1):
-                    e = ("ack", r.proto._pack_seq)
+                    e = ("ack", r.cur_seq())
                 real.append(e)
                 steps.append(r.step(e))
             reconnected = r.api._uart is not None and r.real_reset.done()
             for e in [("issue", 2, later), ("ack", -1), ("ack", -1), ("tick", 1000), ("tick", 6000), ("ack", -1), ("ack", -1), ("tick", 6000)]:
                 if e == ("ack", -1):
-                    e = ("ack", r.proto._pack_seq)
+                    e = ("ack", r.cur_seq())
                 real.append(e)
                 steps.append(r.step(e))
         finally:
@@ -116,7 +116,7 @@ def extra(chk, thorough):
             steps, real = [], []
             for e in evs:
                 if e == ("ack", -1):
-                    e = ("ack", r.proto._pack_seq)
+                    e = ("ack", r.cur_seq())
                 real.append(e)
                 steps.append(T.canon_step(r.step(e)))
         finally:
@@ -133,7 +133,7 @@ def extra(chk, thorough):
         try:
             r.step(("issue", 1, kind))
             for _ in range(A.KINDS[kind][2]):
-                r.step(("ack", r.proto._pack_seq))
+                r.step(("ack", r.cur_seq()))
             o = r.step(("issue", 2, kind))      # same command; request 1 is waiting for its response, the link is free
             chk.evaluations += 1
             if not any(x.startswith("W:2.0") for x in o) and fbad is None:
